@@ -227,3 +227,4 @@ def run(chk, tier, only_rule=None):
     from . import c14
     c14.r14_4(chk, facts)
     c14.r14_5(chk, facts)
+    c14.r14_6(chk, facts)
